@@ -171,6 +171,11 @@ def arrayStep (s : Store) (toks : List String) : Option (Store × String) :=
     some (match parseHandle? h, parseDim? d with
       | some hn, some dim => if dim.valid then (s.put hn (.dim dim), "ok") else (s, "err")
       | _, _ => (s, "err"))
+  | ["dimfrom", h, src, d] =>
+    -- a dimension derived from one in use (`model_copy(update={"items": …})`): the dimension the token describes
+    some (match parseHandle? h, s.dim? src, parseDim? d with
+      | some hn, some _, some dim => if dim.valid then (s.put hn (.dim dim), "ok") else (s, "err")
+      | _, _, _ => (s, "err"))
   | "dset" :: h :: ds =>
     some (putDset s h ((ds.mapM s.dim?).bind DimSet.mk?))
   | "sarr" :: _ :: h :: ds :: sh :: vals =>
